@@ -416,81 +416,84 @@ func checkReverse(c *core.Ctx, t *fnTable) {
 		return
 	}
 	bad := ""
+	runeBased := false
 	info := t.info
-	ast.Inspect(d.Function.Body, func(n ast.Node) bool {
-		rs, ok := n.(*ast.RangeStmt)
-		if !ok {
-			return true
-		}
-		tv, ok := info.Types[rs.X]
-		if !ok {
-			return true
-		}
-		if b, ok := tv.Type.Underlying().(*types.Basic); !ok || b.Info()&types.IsString == 0 {
-			return true
-		}
-		kid, ok := rs.Key.(*ast.Ident)
-		if !ok || kid.Name == "_" {
-			return true
-		}
-		kobj := info.Defs[kid]
-		ast.Inspect(rs.Body, func(m ast.Node) bool {
-			ix, ok := m.(*ast.IndexExpr)
+	// the function and the helpers it hands the work to
+	for _, body := range bodyClosure(c.Prog, t.fm.Pkg.PkgPath, info, d.Function.Body) {
+		ast.Inspect(body, func(n ast.Node) bool {
+			rs, ok := n.(*ast.RangeStmt)
 			if !ok {
 				return true
 			}
-			xt, ok := info.Types[ix.X]
+			tv, ok := info.Types[rs.X]
 			if !ok {
 				return true
 			}
-			sl, ok := xt.Type.Underlying().(*types.Slice)
-			if !ok {
+			if b, ok := tv.Type.Underlying().(*types.Basic); !ok || b.Info()&types.IsString == 0 {
 				return true
 			}
-			if eb, ok := sl.Elem().Underlying().(*types.Basic); ok && eb.Kind() == types.Int32 && core.ReadsObj(info, ix.Index, kobj) {
-				bad = "the byte offset of `range " + core.ExprStr(rs.X) + "` indexes the rune slice " + core.ExprStr(ix.X) + ": for multi-byte characters the positions do not correspond (zero runes / wrong order in the result)"
+			kid, ok := rs.Key.(*ast.Ident)
+			if !ok || kid.Name == "_" {
+				return true
+			}
+			kobj := info.Defs[kid]
+			ast.Inspect(rs.Body, func(m ast.Node) bool {
+				ix, ok := m.(*ast.IndexExpr)
+				if !ok {
+					return true
+				}
+				xt, ok := info.Types[ix.X]
+				if !ok {
+					return true
+				}
+				sl, ok := xt.Type.Underlying().(*types.Slice)
+				if !ok {
+					return true
+				}
+				if eb, ok := sl.Elem().Underlying().(*types.Basic); ok && eb.Kind() == types.Int32 && core.ReadsObj(info, ix.Index, kobj) {
+					bad = "the byte offset of `range " + core.ExprStr(rs.X) + "` indexes the rune slice " + core.ExprStr(ix.X) + ": for multi-byte characters the positions do not correspond (zero runes / wrong order in the result)"
+				}
+				return true
+			})
+			return true
+		})
+		// a rune slice sized by the byte length is the other half of the same mistake
+		ast.Inspect(body, func(n ast.Node) bool {
+			call, ok := n.(*ast.CallExpr)
+			if !ok || core.ExprStr(call.Fun) != "make" || len(call.Args) < 2 || core.ExprStr(call.Args[0]) != "[]rune" {
+				return true
+			}
+			if strings.HasPrefix(core.ExprStr(call.Args[1]), "len(values[0].Str") && bad == "" {
+				bad = "a []rune is allocated with the byte length of the string: the surplus elements end up as NUL characters in the result"
 			}
 			return true
 		})
-		return true
-	})
-	// a rune slice sized by the byte length is the other half of the same mistake
-	ast.Inspect(d.Function.Body, func(n ast.Node) bool {
-		call, ok := n.(*ast.CallExpr)
-		if !ok || core.ExprStr(call.Fun) != "make" || len(call.Args) < 2 || core.ExprStr(call.Args[0]) != "[]rune" {
-			return true
-		}
-		if strings.HasPrefix(core.ExprStr(call.Args[1]), "len(values[0].Str") && bad == "" {
-			bad = "a []rune is allocated with the byte length of the string: the surplus elements end up as NUL characters in the result"
-		}
-		return true
-	})
-	// the unit that is reversed is the character: element writes go to a []rune (or the body decodes with unicode/utf8)
-	runeBased := false
-	ast.Inspect(d.Function.Body, func(n ast.Node) bool {
-		switch x := n.(type) {
-		case *ast.CallExpr:
-			f := core.ExprStr(x.Fun)
-			if f == "[]rune" || strings.HasPrefix(f, "utf8.") {
-				runeBased = true
-			}
-		case *ast.AssignStmt:
-			for _, l := range x.Lhs {
-				ix, ok := l.(*ast.IndexExpr)
-				if !ok {
-					continue
+		// the unit that is reversed is the character: element writes go to a []rune (or the body decodes with unicode/utf8)
+		ast.Inspect(body, func(n ast.Node) bool {
+			switch x := n.(type) {
+			case *ast.CallExpr:
+				f := core.ExprStr(x.Fun)
+				if f == "[]rune" || strings.HasPrefix(f, "utf8.") {
+					runeBased = true
 				}
-				if xt, ok := info.Types[ix.X]; ok {
-					if sl, ok := xt.Type.Underlying().(*types.Slice); ok {
-						if eb, ok := sl.Elem().Underlying().(*types.Basic); ok && (eb.Kind() == types.Uint8 || eb.Kind() == types.Byte) && bad == "" {
-							bad = "the elements that are swapped are bytes (" + core.ExprStr(ix.X) + " is a []byte): a multi-byte character is reversed byte by byte and the result is not valid UTF-8"
+			case *ast.AssignStmt:
+				for _, l := range x.Lhs {
+					ix, ok := l.(*ast.IndexExpr)
+					if !ok {
+						continue
+					}
+					if xt, ok := info.Types[ix.X]; ok {
+						if sl, ok := xt.Type.Underlying().(*types.Slice); ok {
+							if eb, ok := sl.Elem().Underlying().(*types.Basic); ok && (eb.Kind() == types.Uint8 || eb.Kind() == types.Byte) && bad == "" {
+								bad = "the elements that are swapped are bytes (" + core.ExprStr(ix.X) + " is a []byte): a multi-byte character is reversed byte by byte and the result is not valid UTF-8"
+							}
 						}
 					}
 				}
 			}
-		}
-		return true
-	})
+			return true
+		})
+	}
 	if bad == "" && !runeBased {
 		bad = "reverse does not decode its argument into characters ([]rune(…) or unicode/utf8): multi-byte characters are not kept intact"
 	}
